@@ -11,6 +11,7 @@ import RdVerif.Model.Queries
 import RdVerif.Model.Diagram
 import RdVerif.Model.DriverDs
 import RdVerif.Model.ReachWF
+import RdVerif.Model.ErrorChecked
 import RdVerif.Gen.Icrp107.Data
 
 namespace RdVerif.Driver
@@ -158,6 +159,13 @@ def handleMain (st : State) (req : List String) : State × String :=
       (st, "ok " ++ " ".intercalate ((get2 ds.links i []).map (fun l =>
         s!"{encCodes l.name}:{encRat l.bf}:{encCodes (l.mode.toList.map Char.toNat)}")))
     | _, _ => (st, "bad-request")
+  | ["ds_err", dsn, lamRel] =>
+    -- smallest tolerances that pass, the verdict of `errorCheckedB` with them, and the implied forward-error bound
+    match dsByName dsn, decRat lamRel with
+    | some ds, some lr =>
+      let (bE, bC, bR) := errorConstants ds
+      (st, s!"ok {errorCheckedB ds bE bC lr bR} {encRat bE} {encRat bC} {encRat bR} {encRat (errorBoundQ bE bC lr bR)}")
+    | _, _ => (st, "bad-request")
   | ["reach_wf", dsn] =>
     match dsByName dsn with
     | some ds => (st, s!"ok {reachWFb ds}")
@@ -246,7 +254,7 @@ def handleMain (st : State) (req : List String) : State × String :=
 builder; everything else to `handleMain` -/
 def handle (st : State) (req : List String) : State × String :=
   let c := req.headD ""
-  if c.startsWith "ds_" && c != "ds_done" && c != "ds_wf" && c != "ds_drop" then
+  if c.startsWith "ds_" && c != "ds_done" && c != "ds_wf" && c != "ds_drop" && c != "ds_err" then
     match DriverDs.step st.bld req with
     | some b => ({ st with bld := b }, "ok")
     | none => (st, "bad-request")
